@@ -146,7 +146,7 @@ def correspondence(ctx):
         elif f['op'] == 'contains' and f['a'] == 'str' and f['place'] == 'right':
             key = 'proxied-needle-in-plain-str'
             why = None
-        elif f['op'] == 'contains' and f['a'] == 'set' and f['b'] == 'set' and f['place'] == 'right':
+        elif f['op'] == 'contains' and f['a'] in ('set', 'frozenset') and f['b'] == 'set' and f['place'] == 'right':
             key = 'proxied-set-needle-in-plain-set'
             why = None
         elif f['a'] == 'card' and f['b'] == 'card' and f['place'] in ('right', 'both') and f['op'] in ('eq', 'ne', 'lt', 'gt', 'le', 'ge'):
